@@ -1,35 +1,7 @@
 #!/bin/bash
-# build.sh <scratch> [race]: rewrite /repo's working tree into <scratch>/sod and
-# build the worker against it. Prints the fingerprint.
+# development helper: build.sh <dir> [race] - rewrite ${VERIF_REPO:-/repo}'s working tree and build the worker(s) into <dir>
 set -e
 export GOFLAGS=-mod=mod GOPROXY=off GOSUMDB=off GOTOOLCHAIN=local
-SCR="$1"; RACE="$2"
-cd /verif/sim
-mkdir -p "$SCR"
-go run ./cmd/simbuildtest "${VERIF_REPO:-/repo}" "$SCR/sod" > "$SCR/simbuild.txt"
-cat > "$SCR/build.mod" <<EOM
-module verifsim
-
-go 1.18
-
-require (
-	github.com/0xrawsec/sod v0.0.0
-	github.com/anishathalye/porcupine v1.3.0
-	github.com/google/uuid v1.3.0
-)
-
-replace github.com/0xrawsec/sod => $SCR/sod
-EOM
-cat > "$SCR/build.sum" <<EOM
-github.com/0xrawsec/toast v1.2.3 h1:nTs5NyAdmSoDfxlYjMVMYb9wj3C/MFpnoIoQBPUsHXg=
-github.com/0xrawsec/toast v1.2.3/go.mod h1:sRvfNYxqVoH1sZnE18s9Knm/lkbarTGNvaNVBf2/h1k=
-github.com/anishathalye/porcupine v1.3.0 h1:yo51Niv8Tg0tAAn5XOG2UVvJXUregK4WFuLrBRoowP8=
-github.com/anishathalye/porcupine v1.3.0/go.mod h1:WM0SsFjWNl2Y4BqHr/E/ll2yY1GY1jqn+W7Z/84Zoog=
-github.com/google/uuid v1.3.0 h1:t6JiXgmwXMjEs8VusXIJk2BXHsn+wx8BZdTaoZ5fu7I=
-github.com/google/uuid v1.3.0/go.mod h1:TIyPZe4MgqvfeYDBFedMoGGpEw/LqOeaOT+nhxU+yHo=
-EOM
-if [ "$RACE" = race ]; then
-  go build -race -modfile="$SCR/build.mod" -o "$SCR/simworker-race" ./cmd/simworker
-else
-  go build -modfile="$SCR/build.mod" -o "$SCR/simworker" ./cmd/simworker
-fi
+cd /verif/sim && mkdir -p bin && go build -o bin/simcheck ./cmd/simcheck
+S=$(VERIF_SCRATCH=/tmp ./bin/simcheck build $2 | tail -1)
+rm -rf "$1"; mv "$S" "$1"
